@@ -1,9 +1,189 @@
 import Driver.Util
-open Lean
+import NixModel.Pure.Tree
+open Lean Nix Nix.Tree
 
 namespace Driver.C13
 
-/-- stub: replaced when the model of C13 is built -/
-def main : IO Unit := pureLoop fun _ => bad "C13: model driver not built yet"
+def jNat? (j : Json) : Option Nat :=
+  match jInt? j with
+  | some i => if i ≥ 0 then some i.toNat else none
+  | none => none
+
+def kind? : String → Option Kind
+  | "group" => some .group
+  | "data_array" => some .dataArray
+  | "tag" => some .tag
+  | "multi_tag" => some .multiTag
+  | _ => none
+
+def jKey (k : Nat) : Json := Json.num (JsonNumber.fromNat k)
+def jKeys (l : List Nat) : Json := Json.arr (l.map jKey).toArray
+def jOptKey : Option Nat → Json
+  | some k => jKey k
+  | none => Json.null
+
+/-- filters the harness can also express as a Python lambda -/
+def filter? (j : Json) : Option (Node → Bool) :=
+  match (jArr j).toList with
+  | [Json.str "all"] => some fun _ => true
+  | [Json.str "none"] => some fun _ => false
+  | [Json.str "name", Json.str s] => some fun n => n.name == s
+  | [Json.str "type", Json.str s] => some fun n => n.type == s
+  | [Json.str "not_name", Json.str s] => some fun n => n.name != s
+  | [Json.str "name_or_type", Json.str a, Json.str b] => some fun n => n.name == a || n.type == b
+  | [Json.str "name_and_type", Json.str a, Json.str b] => some fun n => n.name == a && n.type == b
+  | _ => none
+
+/-- the model rejects (as malformed) names/types nixio's name check refuses; C13 is not about them -/
+def validName (s : String) : Bool := !s.isEmpty && !(s.toList.contains '/')
+
+def doOp (f : File) (op : Op) : File × Json :=
+  match step f op with
+  | .ok (f', some k) => (f', ok (jKey k))
+  | .ok (f', none) => (f', ok Json.null)
+  | .error e => (f, err e)
+
+def exceptKey (r : Except Err (Option Nat)) : Json :=
+  match r with
+  | .ok v => ok (jOptKey v)
+  | .error e => err e
+
+def handle (f : File) (j : Json) : File × Json :=
+  match (jArr j).toList with
+  | [Json.str "reset"] => ({}, ok Json.null)
+  | [Json.str "create_block", Json.str n, Json.str t] =>
+    if validName n && !t.isEmpty then doOp f (.createBlock n t) else (f, bad "C13: invalid name/type")
+  | [Json.str "create_section", p, Json.str n, Json.str t] =>
+    if !(validName n && !t.isEmpty) then (f, bad "C13: invalid name/type") else
+    if isNull p then doOp f (.createSection none n t) else
+    match jNat? p with
+    | some pk => doOp f (.createSection (some pk) n t)
+    | none => (f, bad "C13: parent")
+  | [Json.str "create_source", p, Json.str n, Json.str t] =>
+    if !(validName n && !t.isEmpty) then (f, bad "C13: invalid name/type") else
+    match jNat? p with
+    | some pk => doOp f (.createSource pk n t)
+    | none => (f, bad "C13: parent")
+  | [Json.str "create_holder", b, Json.str k, Json.str n, Json.str t] =>
+    if !(validName n && !t.isEmpty) then (f, bad "C13: invalid name/type") else
+    match jNat? b, kind? k with
+    | some bk, some kd => doOp f (.createHolder bk kd n t)
+    | _, _ => (f, bad "C13: create_holder")
+  | [Json.str "set_metadata", e, s] =>
+    match jNat? e, jNat? s with
+    | some e, some s => doOp f (.setMetadata e s)
+    | _, _ => (f, bad "C13: set_metadata")
+  | [Json.str "del_metadata", e] =>
+    match jNat? e with
+    | some e => doOp f (.delMetadata e)
+    | _ => (f, bad "C13: del_metadata")
+  | [Json.str "link_source", h, s] =>
+    match jNat? h, jNat? s with
+    | some h, some s => doOp f (.linkSource h s)
+    | _, _ => (f, bad "C13: link_source")
+  | [Json.str "unlink_source", h, s] =>
+    match jNat? h, jNat? s with
+    | some h, some s => doOp f (.unlinkSource h s)
+    | _, _ => (f, bad "C13: unlink_source")
+  | [Json.str "delete", k] =>
+    match jNat? k with
+    | some k => doOp f (.delete k)
+    | _ => (f, bad "C13: delete")
+  | [Json.str "reopen"] => doOp f .reopen
+  -- queries ------------------------------------------------------------------------------
+  | [Json.str "find", root, filt, limit] =>
+    match filter? filt, (if isNull limit then some none else (jNat? limit).map some) with
+    | some fl, some lim =>
+      let res (r : Root) : File × Json := (f, ok (jKeys ((findFrom r fl lim).map Node.key)))
+      match root with
+      | Json.str "file" => res (.top f.sections)
+      | _ =>
+        match jNat? root with
+        | none => (f, bad "C13: find root")
+        | some k =>
+          match f.lookup k with
+          | some (.sec n) => res (.node n)
+          | some (.src _ n) => res (.node n)
+          | some (.blk b) => res (.top b.sources)
+          | _ => (f, err .keyError)
+    | _, _ => (f, bad "C13: find filter/limit")
+  | [Json.str "parent", k, via] =>
+    match jNat? k with
+    | none => (f, bad "C13: parent")
+    | some k =>
+      match via with
+      | Json.str "cached" => (f, exceptKey (sectionParent f k true))
+      | Json.str "fresh" => (f, exceptKey (sectionParent f k false))
+      | _ =>
+        -- ["md", e]: the handle is `e.metadata`
+        match (jArr via).toList with
+        | [Json.str "md", e] =>
+          match jNat? e with
+          | none => (f, bad "C13: parent via")
+          | some e =>
+            let md : Option (Option Nat) := match f.lookup e with
+              | some (.blk b) => some b.md
+              | some (.hold _ h) => some h.md
+              | some (.src _ n) => some n.md
+              | _ => none
+            if md == some (some k) then (f, exceptKey (sectionParent f k false)) else (f, err .keyError)
+        | _ => (f, bad "C13: parent via")
+  | [Json.str "parent_source", k, via] =>
+    match jNat? k with
+    | none => (f, bad "C13: parent_source")
+    | some k =>
+      match via with
+      | Json.str "fresh" => (f, exceptKey (sourceParent f k))
+      | _ =>
+        match (jArr via).toList with
+        | [Json.str "link", h] =>
+          match (jNat? h).bind f.lookup with
+          | some (.hold _ h) =>
+            if h.srcs.contains k then (f, exceptKey (sourceParent f k)) else (f, err .keyError)
+          | _ => (f, err .keyError)
+        | _ => (f, bad "C13: parent_source via")
+  | [Json.str "parent_block", k, via] =>
+    match jNat? k with
+    | none => (f, bad "C13: parent_block")
+    | some k =>
+      let res : Json := match parentBlock f k with
+        | .ok b => ok (jKey b)
+        | .error e => err e
+      match via with
+      | Json.str "fresh" => (f, res)
+      | _ =>
+        match (jArr via).toList with
+        | [Json.str "link", h] =>
+          match (jNat? h).bind f.lookup with
+          | some (.hold _ h) => if h.srcs.contains k then (f, res) else (f, err .keyError)
+          | _ => (f, err .keyError)
+        | _ => (f, bad "C13: parent_block via")
+  | [Json.str "referring", k, Json.str what] =>
+    match jNat? k with
+    | none => (f, bad "C13: referring")
+    | some k =>
+      match f.lookup k with
+      | some (.sec _) =>
+        match what with
+        | "blocks" => (f, ok (jKeys (refBlocks f k)))
+        | "groups" => (f, ok (jKeys (refHolders f .group k)))
+        | "data_arrays" => (f, ok (jKeys (refHolders f .dataArray k)))
+        | "tags" => (f, ok (jKeys (refHolders f .tag k)))
+        | "multi_tags" => (f, ok (jKeys (refHolders f .multiTag k)))
+        | "sources" => (f, ok (jKeys (refSources f k)))
+        | "objects" => (f, ok (jKeys (refObjects f k)))
+        | _ => (f, bad "C13: referring kind")
+      | some (.src b _) =>
+        match what with
+        | "groups" => (f, ok (jKeys (srcRefHolders b .group k)))
+        | "data_arrays" => (f, ok (jKeys (srcRefHolders b .dataArray k)))
+        | "tags" => (f, ok (jKeys (srcRefHolders b .tag k)))
+        | "multi_tags" => (f, ok (jKeys (srcRefHolders b .multiTag k)))
+        | "objects" => (f, ok (jKeys (srcRefObjects b k)))
+        | _ => (f, bad "C13: referring kind")
+      | _ => (f, err .keyError)
+  | _ => (f, bad "C13: unknown op")
+
+def main : IO Unit := loop ({} : File) handle
 
 end Driver.C13
